@@ -38,7 +38,6 @@ pub fn to_java(s: &JS) -> Result<JavaString, String> {
     Ok(out)
 }
 pub fn from_java(s: &JavaStr) -> JS { cf::project::js(s) }
-pub fn to_string(s: &JS) -> String { s.show() }
 
 fn rej<'a, E: std::fmt::Display>(what: &'a str, s: &'a JS) -> impl FnOnce(E) -> AskErr + 'a { move |e| AskErr::Rejected(format!("{what} {:?}: {e}", s.show())) }
 fn rem(e: anyhow::Error) -> AskErr { AskErr::Remapper(format!("{e:#}")) }
